@@ -73,6 +73,34 @@ def tail_repair(ctx, rule):
             ok = any(A.dominates(rn, o, lv[0][0]) or o == lv[0][0] for o in rf.ok_blocks) and not any(lv[0][0] in A.reach(rn, [e]) for e in rf.err_blocks)
         ctx.ob(rule, rn, "raw-last_valid_pos-advances-only-after-a-decoded-entry", ok,
                "reader.last_valid_pos is assigned only on decode_from's Ok edge" if ok else "reader.last_valid_pos is assigned at %d site(s), not only after a successfully decoded entry" % len(lv))
+        # a decode failure is FATAL only after a look at what follows: a torn tail inside the zero-filled pre-allocation can
+        # decode "completely" (the zeros satisfy every read_exact) and fail only in decompression / the trailer / a length
+        # relation — turning such an error kind into Some(Err) makes every reopen after a torn write fail (and nothing cuts
+        # the tail off any more).  (The mirror image — taken for the tail only after a look — is R-C15.8.)
+        if dec_b:
+            rf = A.result_flow(rn, dec_b[0])
+            errb = list(rf.err_blocks)
+            if not errb:
+                s_ = rn.succs(dec_b[0])[0]
+                labels = A.switch_info(rn, s_)[1] if rn.term(s_)["k"] == "switch" else {}
+                errb = [tg for tg, ns in labels.items() if "Err" in ns]
+            io_arms = []
+            ogr = ctx.og(rn)
+            for b_, blk_ in enumerate(rn.blocks):
+                if blk_["cleanup"] or blk_["t"]["k"] != "switch":
+                    continue
+                tm_, labels_ = A.switch_info(rn, b_)
+                if tm_.k == "discr" and any(x.k == "call" and x.a[0] == "journal::entry::Entry::decode_from" for x in A.walk(tm_)) and any("Io" in ns for ns in labels_.values()):
+                    io_arms += [tg for tg, ns in labels_.items() if ns == ["Io"]]
+            LOOK = ("std::io::Read::", "std::io::BufRead::", "as std::io::Read>::", "as std::io::BufRead>::", "std::fs::File::metadata", "std::fs::metadata", "::seek")
+            looks = [b_ for b_, t_ in rn.calls() if any(k in A.cname(t_) for k in LOOK) and not A.cname(t_).endswith("stream_position")]
+            r_ = A.reach(rn, errb, avoid=io_arms + looks + mt) if errb else set()
+            fatal = [b_ for b_ in sorted(r_) if any(st_["p"]["l"] == 0 and not st_["p"]["p"] and st_["rv"]["k"] == "agg" and st_["rv"].get("variant") == "Some"
+                                                    for st_ in rn.blocks[b_]["s"])]
+            ctx.ob(rule, rn, "decode-failure-is-fatal-only-after-looking-at-what-follows", bool(errb) and not fatal,
+                   "no non-I/O decode failure is answered with Some(Err) before the tail was examined / cut" if (errb and not fatal) else
+                   "a decode failure (other than a real I/O error) is returned as Some(Err) at bb%s without a look at what follows: a torn write inside the pre-allocated zero padding that decodes up to that point (e.g. an LZ4 item whose payload was cut: Decompress) makes Database::open fail on every reopen — every write acknowledged before the failure is unrecoverable" % fatal[:2],
+                   rn.loc(fatal[0]) if fatal else "")
     mtf = ctx.fn("journal::reader::JournalReader::maybe_truncate_file_to_last_valid_pos", rule)
     if mtf:
         og = ctx.og(mtf)
@@ -84,6 +112,7 @@ def tail_repair(ctx, rule):
             okarg = A.access_path(arg) == ("P1", "last_valid_pos")
             # skipped only when the stream position is not beyond last_valid_pos
             okcond = False
+            cmp_blocks = []
             for b, blk in enumerate(mtf.blocks):
                 if blk["t"]["k"] == "switch" and not blk["cleanup"]:
                     cmp_ = A.compare_switch(mtf, b, og)
@@ -93,6 +122,17 @@ def tail_repair(ctx, rule):
                                               lambda t: any(x.k == "call" and "stream_position" in x.a[0] for x in A.walk(t)))
                     if less:
                         okcond = okcond or all(tf[0] in A.reach(mtf, [tgt]) for tgt in less)
+                        cmp_blocks.append(b)
+            # ... and that comparison is the ONLY way around the truncation (no shortcut such as "nothing was decoded
+            # yet": a journal that was never written to is 64 MiB of zero padding — left in place, the append-mode writer
+            # puts every later record BEHIND the padding and the next recovery, which stops at the first zero tag, sees none)
+            errs = list(A.error_starts(mtf))
+            r_ = A.reach(mtf, [0], avoid=tf + cmp_blocks + errs)
+            bypass = [x for x in mtf.return_blocks() if x in r_]
+            ctx.ob(rule, mtf, "raw-truncation-has-no-other-bypass", bool(cmp_blocks) and not bypass,
+                   "the only path around truncate_file is stream_position() <= last_valid_pos" if (cmp_blocks and not bypass) else
+                   "maybe_truncate_file_to_last_valid_pos can return Ok without truncating and without having compared the stream position with last_valid_pos (bb%s): an undecodable tail (for a never-written journal: the whole zero-filled pre-allocation) stays in the file, the writer appends behind it, and the next recovery reads nothing of what was acknowledged in between" % (
+                       "->bb".join(map(str, A.find_path(mtf, [0], bypass, avoid=tf + cmp_blocks + errs) or []))))
             ok = okarg and okcond
             detail = "truncate_file(self.last_valid_pos) whenever stream_position() > self.last_valid_pos" if ok else "raw tail truncation: argument %s, taken-when-beyond-valid-pos=%s" % (A.tstr(arg)[:60], okcond)
         ctx.ob(rule, mtf, "raw-truncation-cuts-at-last-decoded-entry", ok, detail)
@@ -421,3 +461,40 @@ def run(ctx):
                        fid, "without holding the journal lock" if not held else "while journal records of its items may still sit in the writer's buffer"),
                    fn.loc(sb))
     ctx.floor("R-C03.9", "memtable seal sites outside recovery", seal_sites, 1)
+
+    # ---- R-C03.10 a commit cannot fail half-way: once the batch is journaled and the first item applied, every path leads to the
+    # publish — an error return out of the apply loop (a late "keyspace was deleted" check, a fallible lookup) leaves some
+    # keyspaces with their part of the batch and others without, journals the whole batch (a reopen replays all of it) and
+    # never publishes the seqno.
+    commit_cannot_fail_halfway(ctx, "R-C03.10")
+
+    # ---- borrowed obligations (mechanisms owned by other properties that this property's verdict also rests on)
+    # a batch whose keyspaces are flushed at different times is atomic across a crash only if its journal is kept until ALL of them have persisted it
+    ctx.borrow("C10", ["R-C10.1"], "R-C03.11")
+    # items of a batch keep their journal order on replay
+    ctx.borrow("C04", ["R-C04.8"], "R-C03.12")
+    # write-ahead order of the commit paths
+    ctx.borrow("C02", ["R-C02.1"], "R-C03.13")
+
+
+def commit_cannot_fail_halfway(ctx, rule):
+    wb = ctx.fn("batch::WriteBatch::commit", rule)
+    if not wb:
+        return
+    ap = R.apply_blocks(wb)
+    pub = R.call_blocks(wb, (R.PUBLISH,))
+    ok = False
+    detail = "WriteBatch::commit lacks the apply loop or the publish"
+    if ap and pub:
+        r = set()
+        for a in ap:
+            r |= A.reach_after(wb, a, avoid=pub)
+        # also the loop head's error exits before/after individual applies: everything inside the apply cycle
+        cyc = [b for b in range(len(wb.blocks)) if not wb.blocks[b]["cleanup"] and any(A.in_cycle(wb, a) and b in A.reach_after(wb, a, avoid=pub) and a in A.reach(wb, [b], avoid=pub) for a in ap)]
+        for b in cyc:
+            r |= A.reach(wb, [b], avoid=pub)
+        esc = [x for x in wb.return_blocks() if x in r]
+        ok = not esc
+        detail = "from the first applied item on, every path of WriteBatch::commit reaches the publish" if ok else \
+            "WriteBatch::commit can return (bb%d) from inside the apply loop without publishing: the batch is in the journal, some keyspaces have received their items and others have not — a failed commit leaves effects, and they surface with the next unrelated write or a reopen" % esc[0]
+    ctx.ob(rule, wb, "no-exit-between-first-apply-and-publish", ok, detail)
